@@ -46,6 +46,20 @@ package object
 //gvc:  ensures fresh: err == nil ==> r != nil && r.#pos == 0 && r.#data == spec_objdata(keyid(b.Hash)) && r.#n == spec_objlen(keyid(b.Hash)) && 0 <= r.#n && r.#n <= 0x4000000000000000
 //gvc:end
 
+// treeEntrySortName: git's base_name_compare key -- the name, with a '/'
+// appended for a directory. spec_sortname(name id, mode) names the resulting
+// string; that the result is a function of the name's content and the mode is
+// what the two proved postconditions say, the id equation itself is granted
+// (string ids are not known to the solver to be functions of content).
+//gvc:func treeEntrySortName
+//gvc:  props C04
+//gvc:  theory int
+//gvc:  requires nn: e != nil
+//gvc:  ensures dir: e.Mode == 0o040000 ==> len(result) == len(e.Name) + 1 && result[len(e.Name)] == '/' && forall(k, 0, len(e.Name), result[k] == e.Name[k])
+//gvc:  ensures file: e.Mode != 0o040000 ==> bytes_eq(result, e.Name)
+//gvc:  grants key: strid(result) == spec_sortname(strid(e.Name), e.Mode)
+//gvc:end
+
 // Tree.Validate (property C04: only fsck-clean trees are written; Encode calls
 // Validate first). A nil result means: every entry has a non-empty name
 // without '/', a non-null id and one of git's tree modes, and no two entries
@@ -58,6 +72,9 @@ package object
 //gvc:  opt coarse
 //gvc:  opt frame args
 //gvc:  opt inline
+//gvc:  loop 1 invariant prev: it1 > 0 ==> strid(prevSortName) == spec_sortname(strid(t.Entries[it1 - 1].Name), t.Entries[it1 - 1].Mode)
+//gvc:  loop 1 invariant sorted: len(errs) == 0 ==> forall(a, 1, it1, !strgt(spec_sortname(strid(t.Entries[a - 1].Name), t.Entries[a - 1].Mode), spec_sortname(strid(t.Entries[a].Name), t.Entries[a].Mode)))
+//gvc:  ensures sorted: result == nil ==> forall(a, 1, len(t.Entries), !strgt(spec_sortname(strid(t.Entries[a - 1].Name), t.Entries[a - 1].Mode), spec_sortname(strid(t.Entries[a].Name), t.Entries[a].Mode)))
 //gvc:  loop 1 invariant modes: len(errs) == 0 ==> forall(a, 0, it1, spec_tree_mode(t.Entries[a].Mode))
 //gvc:  ensures modes: result == nil ==> forall(a, 0, len(t.Entries), spec_tree_mode(t.Entries[a].Mode))
 //gvc:  loop 1 invariant bad: forall(k, 0, len(errs), errs[k] != nil)
@@ -79,4 +96,5 @@ package object
 //gvc:  requires nn: o != nil
 //gvc:  loop 1 invariant pos: it1 >= 0
 //gvc:  sink Writer requires gate: forall(a, 0, len(t.Entries), spec_tree_mode(t.Entries[a].Mode) && len(t.Entries[a].Name) > 0 && forall(b, 0, a, strid(t.Entries[a].Name) != strid(t.Entries[b].Name)))
+//gvc:  sink Writer requires order: forall(a, 1, len(t.Entries), !strgt(spec_sortname(strid(t.Entries[a - 1].Name), t.Entries[a - 1].Mode), spec_sortname(strid(t.Entries[a].Name), t.Entries[a].Mode)))
 //gvc:end
